@@ -160,6 +160,8 @@ def st_bits_subset():
     return S, [
         ('L-SUBSET-OR', ForAll([x, y], Implies(And(x >= 0, y >= 0), (bor(x, y) == x) == S.subset(y, x)), patterns=[bor(x, y)])),
         ('L-SUBSET-AND', ForAll([x, y], Implies(And(x >= 0, y >= 0), (band(x, y) == y) == S.subset(y, x)), patterns=[band(x, y)])),
+        ('L-SUBSET-AND2', ForAll([x, y], Implies(And(x >= 0, y >= 0), (band(x, y) == x) == S.subset(x, y)), patterns=[band(x, y)])),
+        ('L-SUBSET-OR2', ForAll([x, y], Implies(And(x >= 0, y >= 0), (bor(x, y) == y) == S.subset(x, y)), patterns=[bor(x, y)])),
     ]
 
 
@@ -174,6 +176,10 @@ def _bits_subset():
         path.oblige('or', 'lemma', (bor(x, y) == x) == S.subset(y, x))
         ext(path, band(x, y), y)
         path.oblige('and', 'lemma', (band(x, y) == y) == S.subset(y, x))
+        ext(path, band(x, y), x)
+        path.oblige('and2', 'lemma', (band(x, y) == x) == S.subset(x, y))
+        ext(path, bor(x, y), y)
+        path.oblige('or2', 'lemma', (bor(x, y) == y) == S.subset(x, y))
     return bits.axioms() + S.axioms(), prove
 
 
